@@ -1027,6 +1027,195 @@ Section Proofs.
   Qed.
   End OneRoot.
 
+  (* ================================================================ completeness: every kept, non-excluded
+     declaration of every traversed node is represented in the graph by an edge or a node error *)
+  Section Complete.
+  Variable root : vkey.
+  Variable mgt : list (mkey * vkey).
+  Notation nexcl st := (g_nexcl (s_g st)).
+
+  Definition represented (first : bool) (x : vkey) (d : dependency) (g : graph) : Prop :=
+    (exists e, In e (g_edges g) /\ e_from e = x /\ e_dvk e = dep_dvk mgt first d /\ e_mk e = dep_k d /\
+               (e_ty e = d_ty d \/ e_ty e = ty_set (d_ty d) depkey_Selector []))
+    \/ (exists ne, In ne (g_errs g) /\ ne_node ne = x /\ ne_req ne = dep_dvk mgt first d /\ ne_mk ne = dep_k d).
+
+  Definition g_le (g g' : graph) : Prop := incl (g_edges g) (g_edges g') /\ incl (g_errs g) (g_errs g').
+
+  Lemma represented_mono first x d g g' : g_le g g' -> represented first x d g -> represented first x d g'.
+  Proof.
+    intros [Le Lr] [[e [He R]]|[ne [Hne R]]].
+    - left. exists e. split; auto.
+    - right. exists ne. split; auto.
+  Qed.
+
+  Definition st_le (st st' : pst) : Prop :=
+    g_le (s_g st) (s_g st') /\
+    (forall x v, aget vkey_dec (nexcl st) x = Some v -> aget vkey_dec (nexcl st') x = Some v) /\
+    incl (s_todo st) (s_todo st') /\
+    (forall x, In x (g_nodes (s_g st')) -> In x (g_nodes (s_g st)) \/ exists t, In t (s_todo st') /\ n_vk t = x).
+
+  Lemma st_le_refl st : st_le st st.
+  Proof. repeat split; auto using incl_refl. Qed.
+
+  Lemma st_le_trans a b c : st_le a b -> st_le b c -> st_le a c.
+  Proof.
+    intros [[E1 R1] [X1 [T1 N1]]] [[E2 R2] [X2 [T2 N2]]]. repeat split.
+    - eapply incl_tran; eauto.
+    - eapply incl_tran; eauto.
+    - auto.
+    - eapply incl_tran; eauto.
+    - intros x Hx. destruct (N2 x Hx) as [H|H]; auto. destruct (N1 x H) as [H'|[t [Ht Et]]]; auto.
+      right. exists t. split; auto.
+  Qed.
+
+  Lemma dep_go_le first cur st d st' : dep_go mgt first cur st d st' -> st_le st st'.
+  Proof.
+    intros Hgo. inversion Hgo; subst; clear Hgo.
+    - apply st_le_refl.
+    - repeat split; simpl; auto using incl_refl, incl_appl.
+    - repeat split; simpl; auto using incl_refl, incl_appl.
+    - repeat split; simpl; auto using incl_refl, incl_appl.
+    - repeat split; simpl; auto using incl_refl, incl_appl.
+      + intros x v Hx. now apply aget_app_some.
+      + intros x Hx. apply in_app_or in Hx. destruct Hx as [Hx|[Hx|[]]]; auto.
+        right. eexists. split; [apply in_or_app; right; simpl; left; reflexivity|]. simpl. auto.
+  Qed.
+
+  Lemma dep_go_repr first cur st d st' :
+    dep_go mgt first cur st d st' -> is_excluded (n_excl cur) (dep_name d) = Ok false ->
+    represented first (n_vk cur) d (s_g st').
+  Proof.
+    intros Hgo X. inversion Hgo; subst; clear Hgo.
+    - congruence.
+    - right. eexists. split; [simpl; apply in_or_app; right; simpl; left; reflexivity|]. simpl. auto.
+    - left. exists (dep_edge mgt first cur d m EExisting). split; [simpl; apply in_or_app; simpl; auto|]. simpl. auto.
+    - left. exists (dep_edge mgt first cur d m EShared). split; [simpl; apply in_or_app; simpl; auto|]. simpl. auto.
+    - left. exists (dep_edge mgt first cur d m ECreated). split; [simpl; apply in_or_app; simpl; auto|]. simpl. auto.
+  Qed.
+
+  Lemma process_deps_repr first cur : forall ds st st',
+      process_deps first cur mgt st ds = (st', Go) ->
+      st_le st st' /\
+      forall d, In d ds -> is_excluded (n_excl cur) (dep_name d) = Ok false -> represented first (n_vk cur) d (s_g st').
+  Proof.
+    induction ds as [|d ds IH]; intros st st' H; simpl in H.
+    - inversion H; subst. split; [apply st_le_refl | intros d []].
+    - destruct (process_dep first cur mgt st d) as [st1 f1] eqn:P. destruct f1; [|discriminate].
+      apply process_dep_go in P. destruct (IH _ _ H) as [Le R]. split.
+      + eapply st_le_trans; [eapply dep_go_le; eauto | exact Le].
+      + intros d' [<-|Hd] X; auto. eapply represented_mono; [apply Le|]. eapply dep_go_repr; eauto.
+  Qed.
+
+  Definition is_first (x : vkey) : bool := if vkey_dec x root then true else false.
+
+  Definition node_done (t : node) (g : graph) : Prop :=
+    n_incl t = true \/
+    exists ds, imports (n_vk t) (if is_first (n_vk t) then all_imports else 0) = Ok ds /\
+               forall d, In d ds -> is_excluded (n_excl t) (dep_name d) = Ok false ->
+                         represented (is_first (n_vk t)) (n_vk t) d g.
+
+  Definition Inv6 (st : pst) : Prop :=
+    forall x, In x (g_nodes (s_g st)) ->
+      (exists t, In t (s_todo st) /\ n_vk t = x) \/
+      (exists t, n_vk t = x /\ aget vkey_dec (nexcl st) x = Some (n_excl t) /\ node_done t (s_g st) /\
+                 ((x = root /\ n_incl t = false) \/
+                  exists s, In s (g_edges (s_g st)) /\ e_kind s = ECreated /\ e_to s = x /\ n_incl t = warish (e_ty s))).
+
+  (* every queued node knows whether its creating edge is war/ear/rar *)
+  Definition Inv7 (st : pst) : Prop :=
+    forall t, In t (s_todo st) ->
+      (n_vk t = root /\ n_incl t = false) \/
+      exists s, In s (g_edges (s_g st)) /\ e_kind s = ECreated /\ e_to s = n_vk t /\ n_incl t = warish (e_ty s).
+
+  Lemma Inv7_dep first cur st d st' : Inv7 st -> dep_go mgt first cur st d st' -> Inv7 st'.
+  Proof.
+    intros Hi Hgo. inversion Hgo; subst; clear Hgo.
+    - exact Hi.
+    - intros t Ht. destruct (Hi t Ht) as [Hr|[s [A B]]]; [left; auto|]. right. exists s. split; auto.
+    - intros t Ht. destruct (Hi t Ht) as [Hr|[s [A B]]]; [left; auto|]. right. exists s. split; auto. simpl. apply in_or_app; auto.
+    - intros t Ht. destruct (Hi t Ht) as [Hr|[s [A B]]]; [left; auto|]. right. exists s. split; auto. simpl. apply in_or_app; auto.
+    - intros t Ht. simpl in Ht. apply in_app_or in Ht. destruct Ht as [Ht|[Ht|[]]].
+      + destruct (Hi t Ht) as [Hr|[s [A B]]]; [left; auto|]. right. exists s. split; auto. simpl. apply in_or_app; auto.
+      + subst t. right. exists (dep_edge mgt first cur d m ECreated). split; [simpl; apply in_or_app; simpl; auto|].
+        simpl. rewrite warish_selector. auto.
+  Qed.
+
+  Lemma Inv7_deps first cur : forall ds st st',
+      Inv7 st -> process_deps first cur mgt st ds = (st', Go) -> Inv7 st'.
+  Proof.
+    induction ds as [|d ds IH]; intros st st' Hi H; simpl in H.
+    - inversion H; subst; auto.
+    - destruct (process_dep first cur mgt st d) as [st1 f1] eqn:P. destruct f1; [|discriminate].
+      apply process_dep_go in P. eapply IH; [|eauto]. eapply Inv7_dep; eauto.
+  Qed.
+
+  Lemma node_done_mono t g g' : g_le g g' -> node_done t g -> node_done t g'.
+  Proof.
+    intros Le [H|[ds [A B]]]; [left; auto|]. right. exists ds. split; auto.
+    intros d Hd X. eapply represented_mono; eauto.
+  Qed.
+
+  Lemma step_inv67 first cur rest st st' :
+    Inv4 root st -> Inv6 st -> Inv7 st -> s_todo st = cur :: rest ->
+    first = is_first (n_vk cur) ->
+    step first mgt cur (set_todo st rest) = (st', Go) -> Inv6 st' /\ Inv7 st'.
+  Proof.
+    intros I4 I6 I7 T Hf Hs.
+    assert (I7r : Inv7 (set_todo st rest)).
+    { intros t Ht. apply I7. rewrite T. simpl; auto. }
+    assert (Hcur : (n_vk cur = root /\ n_incl cur = false) \/
+                   exists s0, In s0 (g_edges (s_g st)) /\ e_kind s0 = ECreated /\ e_to s0 = n_vk cur /\ n_incl cur = warish (e_ty s0)).
+    { apply I7. rewrite T. simpl; auto. }
+    assert (Hex : aget vkey_dec (nexcl st) (n_vk cur) = Some (n_excl cur)).
+    { apply (i4_todo _ _ I4). rewrite T. simpl; auto. }
+    (* what the step does *)
+    assert (Hle : st_le (set_todo st rest) st' /\ Inv7 st' /\ node_done cur (s_g st')).
+    { revert Hs. unfold MavenRes.step. destruct (n_incl cur) eqn:Inc.
+      - intros H; inversion H; subst. split; [apply st_le_refl|]. split; auto. left; auto.
+      - destruct (imports (n_vk cur) (if first then all_imports else 0)) as [ds| | |] eqn:Im; try discriminate.
+        intros H. destruct (process_deps_repr _ _ _ _ _ H) as [Le R]. split; auto. split.
+        + eapply Inv7_deps; eauto.
+        + right. exists ds. rewrite <- Hf. split; auto. }
+    destruct Hle as [[Gle [Xle [Tle Nle]]] [I7' Done]]. split; auto.
+    intros x Hx. destruct (Nle x Hx) as [Hold|Hnew]; [|left; exact Hnew].
+    simpl in Hold. destruct (I6 x Hold) as [[t [Ht Et]]|[t [Et [Ex [Dn Cr]]]]].
+    - rewrite T in Ht. destruct Ht as [<-|Ht].
+      + right. exists cur. split; auto. subst x. split; [apply Xle; exact Hex|]. split; auto.
+        destruct Hcur as [Hr|[s0 [A [B [C D]]]]]; [left; auto|]. right. exists s0. split; [apply Gle; exact A|]. auto.
+      + left. exists t. split; auto.
+    - right. exists t. split; auto. split; [apply Xle; exact Ex|]. split; [eapply node_done_mono; eauto; exact Gle|].
+      destruct Cr as [Cr|[s [A B]]]; [left; auto|]. right. exists s. split; [apply Gle; exact A | exact B].
+  Qed.
+
+  Lemma bfs_inv67 R0 : forall fuel st st',
+      InvAll root mgt R0 st -> Inv6 st -> Inv7 st ->
+      (forall t, In t (s_todo st) -> n_vk t <> root) ->
+      bfs fuel false mgt st = (st', Go) -> Inv6 st' /\ Inv7 st' /\ s_todo st' = [].
+  Proof.
+    induction fuel as [|fuel IH]; intros st st' IA I6 I7 Hnr; simpl.
+    - destruct (s_todo st) eqn:T; intros H; inversion H; subst; auto.
+    - destruct (s_todo st) as [|cur rest] eqn:T; [intros H; inversion H; subst; auto|].
+      destruct (step false mgt cur (set_todo st rest)) as [st1 f1] eqn:S. destruct f1; [|discriminate]. intros H.
+      assert (Hf : false = is_first (n_vk cur)).
+      { unfold is_first. destruct (vkey_dec (n_vk cur) root) as [E|]; auto. exfalso. apply (Hnr cur); [simpl; auto | exact E]. }
+      destruct IA as [I1 [I3 [I4 I5]]].
+      destruct (step_inv67 _ _ _ _ _ I4 I6 I7 T Hf S) as [I6' I7'].
+      assert (IA1 : InvAll root mgt R0 st1).
+      { destruct (Inv1_pop _ _ _ _ _ I1 T) as [I1' C1']. destruct (Inv3_pop _ _ _ I3 T) as [I3' C3'].
+        destruct (Inv4_pop _ _ _ _ I4 T) as [I4' C4'].
+        apply (lift_step root mgt (InvAll root mgt R0) (CurAll root)) with (first := false) (cur := cur) (st := set_todo st rest); auto.
+        - intros first0 cur0 st0 d st2 [J1 [J3 [J4 J5]]] [D1 [D3 D4]] Hok Hgo.
+          destruct (Inv1_dep _ _ _ _ _ _ _ J1 D1 Hok Hgo) as [J1' D1'].
+          destruct (Inv3_dep _ _ _ _ _ _ _ J1 D1 J3 D3 Hgo) as [J3' D3'].
+          destruct (Inv4_dep _ _ _ _ _ _ _ J4 D4 Hok Hgo) as [J4' D4'].
+          pose proof (Inv5_dep _ R0 _ _ _ _ _ J5 Hgo) as J5'.
+          unfold InvAll, CurAll. tauto.
+        - pose proof (Inv5_pop R0 st rest I5). unfold InvAll. tauto.
+        - intros Inc. unfold CurAll. tauto. }
+      eapply IH; eauto. destruct IA1 as [J1 _]. apply (i1_todo_nonroot _ _ _ J1).
+  Qed.
+  End Complete.
+
   (* ================================================================ a pass, the retry loop, resolve *)
   Lemma pass_ok_inv fuel root R0 R g :
     pass fuel root R0 = (R, Ok g) ->
@@ -1117,6 +1306,70 @@ Section Proofs.
     pass fuel root [] = (R, Ok g) -> resolve_full fuel root = (R, Ok g).
   Proof.
     intros P. unfold MavenRes.resolve_full. rewrite P. unfold maven_max_retries. reflexivity.
+  Qed.
+
+  Lemma bfs_first_complete root mgt R0 fuel st' :
+    reqs_wf R0 -> bfs fuel true mgt (init_st root R0) = (st', Go) ->
+    Inv6 root mgt st' /\ s_todo st' = [].
+  Proof.
+    intros W H. destruct fuel as [|fuel]; simpl in H; [discriminate|].
+    set (rn := mkNode (root_mkey root) root false None) in *.
+    set (st0 := init_st root R0) in *.
+    destruct (step true mgt rn (set_todo st0 [])) as [st1 f1] eqn:S. destruct f1; [|discriminate].
+    assert (E : aget vkey_dec [(root, @None (list bytes))] root = Some None).
+    { simpl. destruct (vkey_dec root root); congruence. }
+    assert (I4 : Inv4 root st0).
+    { constructor; simpl; auto; try (intros; contradiction). intros t [<-|[]]. exact E. }
+    assert (I6 : Inv6 root mgt st0).
+    { intros x [<-|[]]. left. exists rn. simpl. auto. }
+    assert (I7 : Inv7 root st0).
+    { intros t [<-|[]]. left. simpl. auto. }
+    assert (Hf : true = is_first root (n_vk rn)).
+    { unfold is_first. simpl. destruct (vkey_dec root root); congruence. }
+    destruct (step_inv67 root mgt true rn [] st0 st1 I4 I6 I7 eq_refl Hf S) as [I6' I7'].
+    assert (IA1 : InvAll root mgt R0 st1).
+    { apply (lift_step root mgt (InvAll root mgt R0) (CurAll root)) with (first := true) (cur := rn) (st := set_todo st0 []); auto.
+      - intros first0 cur0 st2 d st3 [J1 [J3 [J4 J5]]] [D1 [D3 D4]] Hok Hgo.
+        destruct (Inv1_dep _ _ _ _ _ _ _ J1 D1 Hok Hgo) as [J1' D1'].
+        destruct (Inv3_dep _ _ _ _ _ _ _ J1 D1 J3 D3 Hgo) as [J3' D3'].
+        destruct (Inv4_dep _ _ _ _ _ _ _ J4 D4 Hok Hgo) as [J4' D4'].
+        pose proof (Inv5_dep _ R0 _ _ _ _ _ J5 Hgo) as J5'.
+        unfold InvAll, CurAll. tauto.
+      - destruct (Inv1_init root mgt R0) as [A _]. destruct (Inv4_init root R0) as [B _].
+        pose proof (Inv5_init root R0 W) as D.
+        assert (E3 : Inv3 (set_todo (init_st root R0) [])) by (intros s []).
+        unfold InvAll. tauto.
+      - intros _. destruct (Inv1_init root mgt R0) as [_ A]. destruct (Inv4_init root R0) as [_ B].
+        assert (E3 : Cur3 rn (set_todo (init_st root R0) [])) by (intros s []).
+        unfold CurAll. tauto. }
+    assert (Hnr : forall t, In t (s_todo st1) -> n_vk t <> root).
+    { destruct IA1 as [J1 _]. apply (i1_todo_nonroot _ _ _ J1). }
+    destruct (bfs_inv67 root mgt R0 fuel st1 st' IA1 I6' I7' Hnr H) as [A [_ B]]. auto.
+  Qed.
+
+  (* every node of the returned graph was popped from the queue, and unless it was created
+     through a war/ear/rar dependency its requirements were asked and every kept declaration the
+     node's exclusion set does not exclude has an edge or a node error *)
+  Lemma thm_complete fuel root g :
+    resolve fuel root = Ok g ->
+    forall ver imps0, c_version root = Ok ver -> c_requirements (v_vk ver) = Ok imps0 ->
+    forall x, In x (g_nodes g) ->
+    exists t, n_vk t = x /\ aget vkey_dec (g_nexcl g) x = Some (n_excl t) /\
+              ((x = root /\ n_incl t = false) \/
+               exists s, In s (g_edges g) /\ e_kind s = ECreated /\ e_to s = x /\ n_incl t = warish (e_ty s)) /\
+              (n_incl t = true \/
+               exists ds, imports x (if is_first root x then all_imports else 0) = Ok ds /\
+                          forall d, In d ds -> is_excluded (n_excl t) (dep_name d) = Ok false ->
+                                    represented (mgt_of imps0) (is_first root x) x d g).
+  Proof.
+    intros H ver imps0 Hv Hr x Hx.
+    destruct (resolve_ok _ _ _ H) as [Ra [R [W [P _]]]].
+    apply pass_ok_inv in P. destruct P as [ver' [imps' [st [A [B [C [D E]]]]]]].
+    rewrite Hv in A. inversion A; subst ver'. rewrite Hr in B. inversion B; subst imps'.
+    destruct (bfs_first_complete _ _ _ _ _ W C) as [I6 Tn]. subst g.
+    destruct (I6 x Hx) as [[t [Ht _]]|[t [Et [Ex [Dn Cr]]]]]; [rewrite Tn in Ht; contradiction|].
+    exists t. split; auto. split; auto. split; auto.
+    unfold node_done in Dn. rewrite Et in Dn. exact Dn.
   Qed.
 
   (* ================================================================ the clauses of C07 *)
@@ -1410,6 +1663,116 @@ Section Proofs.
         intros H; inversion H; subst. apply bfs_incompat in B; auto.
       + intros H; inversion H; subst. exfalso. destruct Sane as [_ [_ [Sr _]]]. eapply Sr; eauto.
     - intros H; inversion H; subst. exfalso. destruct Sane as [Sc _]. eapply Sc; eauto.
+  Qed.
+
+  (* ================================================================ the artifact key read off the observable edge:
+     for clients that answer with the package they were asked about, the target of an edge is a
+     version of the declared package *)
+  Definition versions_faithful : Prop :=
+    forall pk vs, c_versions pk = Ok vs -> forall v, In v vs -> vk_pk (v_vk v) = pk.
+
+  Lemma insert_right_in v x : forall rp, In x (insert_right vless v rp) -> x = v \/ In x rp.
+  Proof.
+    induction rp as [|y rp IH]; simpl.
+    - intros [H|[]]; auto.
+    - destruct (vless (v_vk v) (v_vk y)); simpl.
+      + intros [H|H]; auto. apply IH in H. tauto.
+      + intros [H|[H|H]]; auto.
+  Qed.
+
+  Lemma versions_desc_in vs ds x : versions_desc vless vs = Ok ds -> In x ds -> In x vs.
+  Proof.
+    unfold versions_desc. destruct (12 <? N.of_nat (length vs)); [discriminate|].
+    intros H; inversion H; subst; clear H.
+    assert (G : forall l acc, In x (fold_left (fun rp v => insert_right vless v rp) l acc) -> In x l \/ In x acc).
+    { induction l as [|a l IH]; simpl; auto. intros acc H. apply IH in H. destruct H as [H|H]; auto.
+      apply insert_right_in in H. destruct H as [->|H]; auto. }
+    intros H. apply G in H. destruct H as [H|[]]; auto.
+  Qed.
+
+  Lemma fm_scan_vers pk : versions_faithful -> forall reqs i a a',
+      (forall r, In r reqs -> vk_pk r = pk) ->
+      (forall v, In v (fm_vers a) -> vk_pk (v_vk v) = pk) ->
+      (forall s, In s (fm_soft a) -> vk_pk s = pk) ->
+      fm_scan i reqs a = Ok a' ->
+      (forall v, In v (fm_vers a') -> vk_pk (v_vk v) = pk) /\ (forall s, In s (fm_soft a') -> vk_pk s = pk).
+  Proof.
+    intros VsF. induction reqs as [|r reqs IH]; intros i a a' Hr Hv Hs; simpl.
+    - intros H; inversion H; subst; auto.
+    - destruct (is_simple (vk_ver r)) as [s| | |] eqn:S; simpl; try discriminate.
+      destruct s.
+      + apply IH; simpl; auto.
+        * intros; apply Hr; simpl; auto.
+        * intros x Hx. apply in_app_or in Hx. destruct Hx as [Hx|[<-|[]]]; auto. simpl. apply Hr; simpl; auto.
+      + destruct (fm_open i r a) as [a1| | |] eqn:O; simpl; try discriminate.
+        destruct (existsb _ (fm_vers a1)); [|discriminate].
+        assert (Hv1 : forall v, In v (fm_vers a1) -> vk_pk (v_vk v) = pk).
+        { revert O. unfold MavenRes.fm_open. destruct (fm_hidx a); [intros O; inversion O; subst; auto|].
+          destruct (c_versions (vk_pk r)) as [vs| | |] eqn:V; simpl; try discriminate.
+          destruct (versions_desc vless vs) as [ds| | |] eqn:D; simpl; try discriminate.
+          intros O; inversion O; subst; simpl. intros v Hin. apply (versions_desc_in _ _ _ D) in Hin.
+          rewrite (VsF _ _ V v Hin). apply Hr; simpl; auto. }
+        destruct (fm_open_hard _ _ _ _ O) as [_ Hsoft].
+        apply IH; simpl; auto.
+        * intros; apply Hr; simpl; auto.
+        * rewrite Hsoft. auto.
+  Qed.
+
+  Lemma fm_pick_pk pk : version_faithful -> forall softs i a v,
+      (forall x, In x (fm_vers a) -> vk_pk (v_vk x) = pk) -> (forall s, In s softs -> vk_pk s = pk) ->
+      fm_pick i softs a = Ok v -> vk_pk (v_vk v) = pk.
+  Proof.
+    intros VF. induction softs as [|s softs IH]; intros i a v Hv Hs; simpl.
+    - destruct (at_hard a i); [|discriminate].
+      destruct (first_listed cmatch a) eqn:F; [|discriminate]. intros H; inversion H; subst.
+      apply Hv. unfold first_listed in F. apply find_some in F. tauto.
+    - destruct (if at_hard a i then first_listed cmatch a else None) eqn:F.
+      + intros H; inversion H; subst. destruct (at_hard a i); [|discriminate].
+        apply Hv. unfold first_listed in F. apply find_some in F. tauto.
+      + destruct (matches_all cmatch (fm_hard a) (vk_ver s)).
+        * intros H. apply VF in H. rewrite H. apply Hs; simpl; auto.
+        * apply IH; auto. intros; apply Hs; simpl; auto.
+  Qed.
+
+  Lemma find_match_pk pk l m : version_faithful -> versions_faithful ->
+    (forall r, In r l -> vk_pk r = pk) -> find_match l = Ok m -> vk_pk (v_vk m) = pk.
+  Proof.
+    intros VF VsF Hr. unfold MavenRes.find_match. destruct l as [|r0 rest]; [discriminate|].
+    destruct (existsb _ rest); [discriminate|].
+    destruct (fm_scan 0 (r0 :: rest) (mkFm [] [] None [])) as [a| | |] eqn:Sc; simpl; try discriminate.
+    assert (E1 : forall v, In v (fm_vers (mkFm [] [] None [])) -> vk_pk (v_vk v) = pk) by (intros v []).
+    assert (E2 : forall s, In s (fm_soft (mkFm [] [] None [])) -> vk_pk s = pk) by (intros s []).
+    destruct (fm_scan_vers pk VsF _ _ _ _ Hr E1 E2 Sc) as [Hv Hs].
+    now apply fm_pick_pk.
+  Qed.
+
+  (* ghost fields against observable fields *)
+  Lemma thm_ghost fuel root g :
+    resolve fuel root = Ok g ->
+    forall e, In e (g_edges g) ->
+      e_mk e = mkey_for (vk_pk (e_dvk e)) (e_ty e) /\ e_req e = vk_ver (e_dvk e) /\
+      (version_faithful -> versions_faithful -> vk_pk (e_to e) = vk_pk (e_dvk e)).
+  Proof.
+    intros H e He.
+    destruct (resolve_good _ _ _ H) as [Ra [R [W [[ver [imps [st [A [B [[I1 [_ [_ I5]]] [D E]]]]]]] _]]]].
+    subst g. destruct (i1_edge_mk _ _ _ I1 e He) as [Hmk Hreq]. repeat split; auto.
+    intros VF VsF. destruct (i5_edge _ _ I5 e He) as [l [m [Pre [Fm [Hin Hto]]]]].
+    rewrite Hto. assert (Hl : forall r, In r l -> vk_pk r = mk_pk (e_mk e)).
+    { intros r Hr. apply (i5_wf _ _ I5). eapply prefix_In; eauto. }
+    rewrite (find_match_pk _ _ _ VF VsF Hl Fm). symmetry. apply Hl. exact Hin.
+  Qed.
+
+  (* one version per artifact, stated on what the Go graph shows: target package, classifier, type *)
+  Lemma thm_one_version_observable fuel root g :
+    version_faithful -> versions_faithful -> resolve fuel root = Ok g ->
+    forall e1 e2, In e1 (g_edges g) -> In e2 (g_edges g) ->
+      mkey_for (vk_pk (e_to e1)) (e_ty e1) = mkey_for (vk_pk (e_to e2)) (e_ty e2) ->
+      e_kind e1 <> EShared -> e_kind e2 <> EShared -> e_to e1 = e_to e2.
+  Proof.
+    intros VF VsF H e1 e2 H1 H2 Ek K1 K2.
+    destruct (thm_ghost _ _ _ H e1 H1) as [M1 [_ P1]]. destruct (thm_ghost _ _ _ H e2 H2) as [M2 [_ P2]].
+    destruct (thm_one_version _ _ _ H) as [T _]. apply T; auto.
+    rewrite M1, M2, <- (P1 VF VsF), <- (P2 VF VsF). exact Ek.
   Qed.
 
   (* the retry loop: a pass only appends to the requirement lists *)
